@@ -181,6 +181,14 @@ inline void gen_data(Tape& t, SplineCase<DIM>& c, bool allow_offset = true) {
     c.bc_field(end, ord)(d) = v;
   } else if (cls == 2) {
     for (int e = 0; e < 2; ++e) for (int ord = 1; ord <= 3; ++ord) for (int d = 0; d < DIM; ++d) c.bc_field(e == 1, ord)(d) = val(ord);
+    // every zero / non-zero pattern of the six boundary fields occurs (shortcuts keyed on "this field is zero" show only then),
+    // and single components that are exactly zero inside an otherwise non-zero field
+    if (t.chance(1, 3)) {
+      unsigned mask = (unsigned)t.range(0, 63);
+      for (int e = 0; e < 2; ++e) for (int ord = 1; ord <= 3; ++ord) if (mask & (1u << (e * 3 + ord - 1))) c.bc_field(e == 1, ord).setZero();
+    } else if (t.chance(1, 4)) {
+      c.bc_field(t.flag(), t.range(1, 3))(t.range(0, DIM - 1)) = 0.0;
+    }
   }
   double M = 0;
   for (int i = 0; i <= N; ++i) for (int d = 0; d < DIM; ++d) M = std::max(M, std::fabs(c.P(i, d)));
